@@ -2581,6 +2581,22 @@ def _emit_block(
 
     return lines
 
+
+def _nesting_as_value_error(func):
+    """Report a program nested too deeply to emit as ValueError, as ``parse`` does for its input."""
+
+    def wrapper(ast: Program) -> str:
+        """Serialize a :class:`~Reduino.transpile.ast.Program` into Arduino C++."""
+
+        try:
+            return func(ast)
+        except (RecursionError, MemoryError) as exc:
+            raise ValueError("program is nested too deeply") from exc
+
+    return wrapper
+
+
+@_nesting_as_value_error
 def emit(ast: Program) -> str:
     """Serialize a :class:`~Reduino.transpile.ast.Program` into Arduino C++."""
 
